@@ -45,7 +45,7 @@ end
 
 section
 variable {R : Type} [Add R] [Sub R] [Mul R] [Neg R] [Zero R] [One R] [Div R] [Consts R]
-  [LE R] [DecidableLE R] [HasSqrt R] [RegConsts R] [ExprFns R] [AngleFns R]
+  [LE R] [DecidableLE R] [LT R] [DecidableLT R] [HasSqrt R] [RegConsts R] [ExprFns R] [AngleFns R]
 
 /-- **Chunked = whole.** From any session `s`: if the chunks are accepted one by one and the
 concatenated text is accepted in one go, the two resulting interpreters are equivalent; the
@@ -99,7 +99,7 @@ end
 
 section
 variable {R : Type} [Add R] [Sub R] [Mul R] [Neg R] [Zero R] [One R] [Div R] [Consts R]
-  [LE R] [DecidableLE R] [HasSqrt R] [RegConsts R]
+  [LE R] [DecidableLE R] [LT R] [DecidableLT R] [HasSqrt R] [RegConsts R]
 
 /-- **Equivalent interpreters compute the same.** Simulators built from them, run from
 |0…0> with the same measurement outcomes, end in the same quantum state (whole buffer), the
